@@ -71,6 +71,24 @@ Theorem C20_concurrent_eq_sequential : forall init tr s s' obs t, Inv init s -> 
   exists s'', run init (proj t tr) s = Some (s'', proj t obs).
 Proof. exact concurrent_eq_sequential. Qed.
 
+(* --- the atomicity of the reference-count decrement (`Drop for Chunk`: ONE fetch_sub) ------------------------- *)
+
+(* the decrement split into load and store (Model.v: xstep), the two halves scheduled next to each other, IS the atomic
+   drop - same enabledness, same final state, same observations, for every state ... *)
+Theorem C20_split_decrement_adjacent_is_atomic : forall init t c s ld s' ob, ld t = None ->
+  step init t (ODrop c) s = Some (s', ob) ->
+  exists ld', xrun init [(t, XDecLoad c); (t, XDecStore)] (s, ld) = Some ((s', ld'), map (pair t) ob) /\ forall t', ld' t' = ld t'.
+Proof. exact xdec_adjacent_is_drop. Qed.
+
+Theorem C20_split_decrement_adjacent_enabled_iff : forall init t c s ld, ld t = None ->
+  (step init t (ODrop c) s = None <-> xrun init [(t, XDecLoad c); (t, XDecStore)] (s, ld) = None).
+Proof. exact xdec_adjacent_enabled_iff. Qed.
+
+(* ... and the extended relation is conservative over the model (schedules of atomic steps run as in the model) *)
+Theorem C20_atomic_steps_embed : forall init tr s s' obs ld, run init tr s = Some (s', obs) ->
+  xrun init (map (fun p => (fst p, XAtomic (snd p))) tr) (s, ld) = Some ((s', ld), obs).
+Proof. exact xrun_atomic. Qed.
+
 (* --- the hypotheses are satisfiable on non-trivial states, and they are load-bearing ------------------------- *)
 
 (* two threads share a chunk; it is created on thread 0, cloned, moved to thread 1, cached there, read by both,
@@ -106,3 +124,37 @@ Qed.
 Example C20_ex_double_drop_not_enabled :
   run init0 [A 0 7; C 0 0 0; Sd 0 0 0; Rv 1 0 0; D 0 0 0; D 0 0 0] s0 = None.
 Proof. vm_compute. reflexivity. Qed.
+
+(* the ATOMICITY of the decrement is load-bearing.  Thread 0 built a heap in chunk (0,0), keeps the remainder of the
+   chunk (its second reference: the per-thread chunk cache) and sent the heap to thread 1: count = 2 = holders, Inv.
+   Thread 1 drops the heap NON-atomically (load 2 ... store 1) and thread 0 carves its next heap out of the remainder
+   (`OClone` = fetch_add, 2 -> 3) between the two halves: the increment is lost, count = 1 with 2 holders; the next
+   (atomic!) drop by thread 0 frees the chunk under its other live reference, whose next read returns poison. *)
+Example C20_ex_split_decrement_interleaved_breaks_invariant :
+  exists s1, run init0 [A 0 7; C 0 0 0; Sd 0 0 0; Rv 1 0 0] s0 = Some (s1, []) /\ Inv init0 s1 /\
+  exists s2 ld, xrun init0 [(1, XDecLoad (0, 0)); (0, XAtomic (OClone (0, 0))); (1, XDecStore)] (s1, no_loads) = Some ((s2, ld), []) /\
+    count (0, 0) (refs s2) = 2 /\ rc s2 (0, 0) = 1 /\ mem s2 (0, 0) = Some 7 /\
+    exists s3, step init0 0 (ODrop (0, 0)) s2 = Some (s3, []) /\
+      In (Heap 0, (0, 0)) (refs s3) /\ mem s3 (0, 0) = None /\
+      option_map snd (step init0 0 (OReadChunk (0, 0)) s3) = Some [EvChunk (0, 0) poison].
+Proof.
+  destruct (run init0 [A 0 7; C 0 0 0; Sd 0 0 0; Rv 1 0 0] s0) as [[s1 obs]|] eqn:E; [|vm_compute in E; discriminate].
+  assert (I : Inv init0 s1) by (eapply run_inv; [apply inv_init|exact E]).
+  vm_compute in E. inversion E; subst. eexists. split; [reflexivity|]. split; [exact I|].
+  eexists. eexists. split; [vm_compute; reflexivity|].
+  split; [vm_compute; reflexivity|]. split; [vm_compute; reflexivity|]. split; [vm_compute; reflexivity|].
+  eexists. split; [vm_compute; reflexivity|].
+  split; [vm_compute; auto|]. split; vm_compute; reflexivity.
+Qed.
+
+(* the same three steps with the two halves adjacent (the clone before or after them): count = holders = 2, chunk live *)
+Example C20_ex_split_decrement_adjacent_keeps_invariant :
+  forall s1, run init0 [A 0 7; C 0 0 0; Sd 0 0 0; Rv 1 0 0] s0 = Some (s1, []) ->
+  (exists s2 ld, xrun init0 [(0, XAtomic (OClone (0, 0))); (1, XDecLoad (0, 0)); (1, XDecStore)] (s1, no_loads) = Some ((s2, ld), []) /\
+     count (0, 0) (refs s2) = 2 /\ rc s2 (0, 0) = 2 /\ mem s2 (0, 0) = Some 7) /\
+  (exists s2 ld, xrun init0 [(1, XDecLoad (0, 0)); (1, XDecStore); (0, XAtomic (OClone (0, 0)))] (s1, no_loads) = Some ((s2, ld), []) /\
+     count (0, 0) (refs s2) = 2 /\ rc s2 (0, 0) = 2 /\ mem s2 (0, 0) = Some 7).
+Proof.
+  intros s1 E. vm_compute in E. inversion E; subst.
+  split; eexists; eexists; (split; [vm_compute; reflexivity|]); repeat split; vm_compute; reflexivity.
+Qed.
